@@ -62,6 +62,9 @@ type scenario struct {
 	// poller / keep-alive). On the serial interface commands and data share one line: every frame
 	// must still arrive whole. Only in scenarios without CRCFAULT fences (which use VERSION themselves).
 	Poll bool `json:"poll,omitempty"`
+	// Greet (serial line): this many ARQ frames follow the CONNECTED report directly (dial: the called station
+	// greets at once; listen: the caller's first frames), before the host's next query is answered.
+	Greet int `json:"greet,omitempty"`
 	CutN int  `json:"cut_n,omitempty"`
 }
 
@@ -81,7 +84,7 @@ var Check = &vrt.Check{
 			"CRCFAULT send no unsolicited BUFFER lines and such a Write starts only after a control round trip (the library takes any BUFFER line, even the BUFFER 0 that has just " +
 			"released Flush, as the acknowledgement of its data frame and then never sees the CRCFAULT)",
 		"BUFFER lines without a valid number are sent only while nothing is outstanding (the library reads them as 0)",
-		"ARQ data is sent only after Dial/Accept returned and, in TCP mode, the connection is ended only after the reader received everything (the two sockets are not ordered " +
+		"in TCP mode ARQ data is sent only after Dial/Accept returned (on the serial line a third of the scenarios deliver 1-4 frames directly behind the CONNECTED report) and, in TCP mode, the connection is ended only after the reader received everything (the two sockets are not ordered " +
 			"relative to each other)",
 		"at most 1000 ARQ frames are outstanding while the reader is stalled (the library's queue holds 4096 frames and disconnects after a minute when it is full)",
 		"Write of more than 65535 bytes is shortened by design: the returned n is the contract, the remainder is written again by the scenario",
@@ -109,7 +112,7 @@ var regressClasses = []string{
 	"write-sizes-serial", "write-sizes-tcp", "crcfault-1", "crcfault-2", "crcfault-3", "crcfault-each", "buffer-before-crcfault",
 	"flush-order-serial", "flush-order-tcp", "ptt-order", "close-disconnect-serial", "close-disconnect-tcp",
 	"remote-disconnect", "cut-mid-frame-serial", "cut-mid-frame-tcp", "garbage-serial", "garbage-tcp",
-	"burst-stalled-reader", "listen-serial", "listen-tcp", "offline-start", "empty-frames",
+	"burst-stalled-reader", "listen-serial", "listen-tcp", "offline-start", "empty-frames", "dial-greeting",
 }
 
 func plan(seed int64, tier string) []vrt.Case {
@@ -251,6 +254,11 @@ func genScenario(seed int64, idx int) scenario {
 		}
 		sc.Writes[len(sc.Writes)-1].Flush = true
 		sc.Poll = !faulty && r.Intn(2) == 0
+	}
+	if sc.Seed%3 == 0 && sc.Mode == "serial" {
+		// only on the serial line: over TCP the report and the data travel on two sockets that are not
+		// ordered relative to each other, so "directly behind" does not exist there
+		sc.Greet = 1 + int(sc.Seed/3)%4
 	}
 	if r.Intn(10) < 9 {
 		sc.A = genItems(r, &sc, r.Intn(14), false, &budget, !faulty)
